@@ -100,6 +100,49 @@ def _standin(x):
     return x
 
 
+class _Path:
+    """records the chain of attribute / item accesses of a `where` function"""
+    def __init__(self, steps=()):
+        object.__setattr__(self, "_steps", tuple(steps))
+    def __getattr__(self, name):
+        return _Path(self._steps + (("attr", name),))
+    def __getitem__(self, key):
+        return _Path(self._steps + (("item", key),))
+
+
+def put_at(where, obj, value):
+    """eqx.tree_at(where, obj, value) without the pytree round trip: shallow copies along the accessed paths, every
+    dictionary of the object keeps the order its author wrote (tree_at rebuilds them all in sorted key order, which hides
+    whatever depends on the written order).  `where` returns one node or a list / tuple of nodes."""
+    import copy
+    sel = where(_Path())
+    multi = isinstance(sel, (list, tuple))
+    paths = list(sel) if multi else [sel]
+    values = list(value) if multi else [value]
+    assert len(paths) == len(values)
+
+    def upd(node, steps, v):
+        if not steps:
+            return v
+        (kind, key), rest = steps[0], steps[1:]
+        if kind == "attr":
+            new = copy.copy(node)
+            object.__setattr__(new, key, upd(getattr(node, key), rest, v))
+            return new
+        if isinstance(node, dict):
+            new = dict(node)
+            new[key] = upd(node[key], rest, v)
+            return new
+        if isinstance(node, (list, tuple)):
+            items = list(node)
+            items[key] = upd(node[key], rest, v)
+            return type(node)(items) if not hasattr(node, "_fields") else type(node)(*items)
+        raise TypeError(f"put_at: cannot index into {type(node)}")
+    for pth, v in zip(paths, values):
+        obj = upd(obj, pth._steps, v)
+    return obj
+
+
 def mk_loss(cls, **kw):
     """Construct a jinns loss object the way users do — outside any trace, with concrete data — and then put the symbolic
     weights / initial condition / normalisation data / derivative keys into the user-facing fields (as users re-weight or
